@@ -1,5 +1,6 @@
 """Computation of event contour from event mask"""
 from collections import deque
+import hashlib
 import numbers
 
 import numpy as np
@@ -36,8 +37,7 @@ class LazyContourList(object):
         self.masks = masks
         self.contours = deque(maxlen=max_events or None)
         self.indices = deque(maxlen=max_events or None)
-        #: used for hashing in ancillary features
-        self.identifier = str(masks[0][:].tobytes())
+        self._identifier = None
         self.shape = len(masks), np.nan, 2
 
     def __getitem__(self, idx):
@@ -72,6 +72,23 @@ class LazyContourList(object):
 
     def __len__(self):
         return len(self.masks)
+
+    @property
+    def identifier(self):
+        """Used for hashing in ancillary features (computed on demand)"""
+        if self._identifier is None:
+            masks = self.masks
+            if isinstance(masks, np.ndarray):
+                # in-memory masks (e.g. temporary features): every event
+                # counts, not only the first one
+                self._identifier = hashlib.md5(
+                    np.ascontiguousarray(masks)).hexdigest()
+            elif hasattr(masks, "identifier"):
+                # file-based masks know where they come from
+                self._identifier = str(masks.identifier)
+            else:
+                self._identifier = str(masks[0][:].tobytes())
+        return self._identifier
 
 
 def get_contour(mask):
